@@ -12,5 +12,6 @@ import Setec.Properties.C10
 import Setec.Properties.C11
 import Setec.Properties.C13
 import Setec.Properties.C16
+import Setec.Properties.C17
 import Setec.Properties.C19
 import Setec.Properties.C18
